@@ -524,16 +524,25 @@ func (ex *Exec) formatArgT(verb byte, spec string, arg Value, typ types.Type, de
 			}
 			return ex.strLit(fmt.Sprintf("%"+spec+string(verb), v.K))
 		}
-		if v.W == 0 {
-			return ex.freshOpaque('b', 4, 5, "bool")
+		// the rendering of a symbolic number is a function of the term: the
+		// same term formatted twice gives the same (uninterpreted) text
+		ck := fmt.Sprintf("fmt|%d|%c|%s", v.id, verb, spec)
+		if c, ok := ex.hostState[ck]; ok {
+			return c.(Str)
 		}
-		switch verb {
-		case 'x', 'X':
-			return ex.freshOpaque('f', 1, 16, "hexnum")
-		case 'c':
-			return ex.freshOpaque('c', 1, 4, "char")
+		var r Str
+		switch {
+		case v.W == 0:
+			r = ex.freshOpaque('b', 4, 5, "bool")
+		case verb == 'x' || verb == 'X':
+			r = ex.freshOpaque('f', 1, 16, "hexnum")
+		case verb == 'c':
+			r = ex.freshOpaque('c', 1, 4, "char")
+		default:
+			r = ex.freshOpaque('9', 1, 20, "num")
 		}
-		return ex.freshOpaque('9', 1, 20, "num")
+		ex.hostState[ck] = r
+		return r
 	case Slice:
 		if v.Rope != nil {
 			if verb == 's' || verb == 'v' {
